@@ -100,6 +100,30 @@ def discharge(ob, timeout_ms, _phase=0, single=False):
     return Result(ob, 'unknown', time.time() - t0, 'z3', reason=reason)
 
 
+def discharge_seeded(ob, timeout_ms, seeds):
+    """last resort for an obligation that is discharged on the committed baseline but came back undecided: z3's search
+    on sequence formulas varies from run to run (the same obligation is proved in 2 s in one run and not in 15 s in the
+    next), so it is attempted again under several seeds with the long budget, with all hypotheses and with the
+    goal-connected slice; a proof under any of them is a proof"""
+    t0 = time.time()
+    reason = ''
+    for seed in seeds:
+        for hyps in (ob.pc, _slice(ob.pc, ob.goal, 2)):
+            s = z3.Solver()
+            s.set('timeout', timeout_ms)
+            s.set('random_seed', seed)
+            for c in hyps:
+                s.add(c)
+            s.add(z3.Not(ob.goal))
+            r = hard_check(s, timeout_ms)
+            if r == z3.unsat:
+                return Result(ob, 'discharged', time.time() - t0, f'z3-seed{seed}')
+            if r == z3.sat and hyps is ob.pc:
+                return Result(ob, 'refuted', time.time() - t0, 'z3', model=s.model())
+            reason = s.reason_unknown()
+    return Result(ob, 'unknown', time.time() - t0, 'z3', reason=reason)
+
+
 def _symbols(e, _cache={}):
     k = e.get_id()
     if k in _cache:
